@@ -1,12 +1,12 @@
 #!/bin/bash
-# runs every registered check (quick by default) sequentially; summary in .work/run_all.log
+# runs every registered check (quick by default) sequentially; summary in .work/run_all_<tier>.log
 cd "$(dirname "$0")/.."
 tier=${1:-quick}
 mkdir -p .work
-: > .work/run_all.log
+: > .work/run_all_$tier.log
 for id in $(python3 -c "import json;print(' '.join(c['property_id'] for c in json.load(open('MANIFEST.json'))['checks']))"); do
   s=$(date +%s)
-  VERIF_SEED=${VERIF_SEED:-1} ./check $id $tier > .work/run_$id.out 2>&1; rc=$?
-  echo "$id exit=$rc $(( $(date +%s)-s ))s $(tail -1 .work/run_$id.out | cut -c1-160)" >> .work/run_all.log
+  VERIF_SEED=${VERIF_SEED:-1} VERIF_VERBOSE=1 ./check $id $tier > .work/run_${tier}_$id.out 2>&1; rc=$?
+  echo "$id exit=$rc $(( $(date +%s)-s ))s $(tail -1 .work/run_${tier}_$id.out | cut -c1-160)" >> .work/run_all_$tier.log
 done
-echo ALLDONE >> .work/run_all.log
+echo ALLDONE >> .work/run_all_$tier.log
